@@ -203,6 +203,10 @@ func (e *Engine) bind() error {
 					e.parenMarks[cm.End()] = "head"
 				case "/*@final*/":
 					e.parenMarks[cm.End()] = "final"
+				default:
+					if strings.HasPrefix(cm.Text, "/*@exit") {
+						e.parenMarks[cm.End()] = "exit:" + strings.TrimSuffix(strings.TrimPrefix(cm.Text, "/*@exit"), "*/")
+					}
 				}
 			}
 		}
@@ -242,7 +246,7 @@ func (e *Engine) bind() error {
 			}
 			bc := &BoundContract{FC: fc, Pkg: pkg, Decl: fd, Locals: map[*types.Var]string{}, Inv: map[int][]ClauseExpr{},
 				Dec: map[int]ClauseExpr{}, LoopMod: map[int][]ast.Expr{}, LoopSplit: map[int][]ast.Expr{}, Unroll: map[int]int{}, HasLoop: map[int]bool{},
-				FreshResult: map[int]bool{}, Known: map[string]string{}, UseLemma: map[int][]*ast.FuncLit{}}
+				FreshResult: map[int]bool{}, Known: map[string]string{}, UseLemma: map[int][]*ast.FuncLit{}, LoopExit: map[int][]ClauseExpr{}}
 			obj := pkg.TypesInfo.Defs[fd.Name].(*types.Func)
 			bc.Sig = obj.Type().(*types.Signature)
 			if fc.Spec {
@@ -449,7 +453,7 @@ func (e *Engine) bindClauses(bc *BoundContract) error {
 	for i := range fc.Clauses {
 		cl := &fc.Clauses[i]
 		switch cl.Kind {
-		case "requires", "ensures", "invariant", "decreases", "modifies", "fresh", "assert", "assume", "split", "appends", "appendsAll", "copies", "mapStore", "mapDelete", "uselemma":
+		case "requires", "ensures", "invariant", "decreases", "modifies", "fresh", "assert", "assume", "split", "appends", "appendsAll", "copies", "mapStore", "mapDelete", "uselemma", "exit":
 			if ci >= len(calls) {
 				return fmt.Errorf("%s:%d: clause/statement mismatch", fc.File, cl.Line)
 			}
@@ -472,6 +476,12 @@ func (e *Engine) bindClauses(bc *BoundContract) error {
 				bc.MapOps = append(bc.MapOps, []ast.Expr{call.Args[0], call.Args[1]})
 			case "copies":
 				bc.Copies = append(bc.Copies, [3]ast.Expr{call.Args[0], call.Args[1], call.Args[2]})
+			case "exit":
+				if cl.Loop < 0 {
+					return fmt.Errorf("%s:%d: exit needs 'loop N: exit <expr>'", fc.File, cl.Line)
+				}
+				bc.LoopExit[cl.Loop] = append(bc.LoopExit[cl.Loop], ClauseExpr{call.Args[1], cl, bc})
+				bc.HasLoop[cl.Loop] = true
 			case "uselemma":
 				bc.UseLemma[cl.Loop] = append(bc.UseLemma[cl.Loop], call.Args[1].(*ast.FuncLit))
 				if cl.Loop >= 0 {
